@@ -7,6 +7,7 @@ import Driver.C14Mon
 import Driver.C05Mon
 import Driver.C08Mon
 import Driver.C10Mon
+import Driver.C15Mon
 open Kv
 
 structure MState where
@@ -27,6 +28,7 @@ def dispatchMon (st : MState) (prop : String) (l : Line) : MState × String :=
   | "C05" => (st, Drv.C05.step l)
   | "C08" => let (s, r) := Drv.C08.stepMon st.c08 l; ({ st with c08 := s }, r)
   | "C10" => (st, Drv.C10.step l)
+  | "C15" => (st, Drv.C15.stepMon l)
   | _ => (st, "bad-op")
 
 def main : IO Unit := driverMain dispatchMon {}
